@@ -175,6 +175,9 @@ type CutReader struct {
 	Reads int
 	// FailAtCall > 0: the k-th Read call fails with Err regardless of position (nothing delivered by that call).
 	FailAtCall int
+	// DataWithErr: the failing call (or the call that reaches Cut) delivers its bytes TOGETHER with the error
+	// (n > 0, err != nil), as io.Reader allows and real transports do.
+	DataWithErr bool
 }
 
 func (c *CutReader) Read(p []byte) (int, error) {
@@ -183,7 +186,8 @@ func (c *CutReader) Read(p []byte) (int, error) {
 	if e == nil {
 		e = io.EOF
 	}
-	if c.FailAtCall > 0 && c.Reads >= c.FailAtCall {
+	failNow := c.FailAtCall > 0 && c.Reads >= c.FailAtCall
+	if failNow && !(c.DataWithErr && c.Reads == c.FailAtCall) {
 		return 0, e
 	}
 	if c.off >= c.Cut {
@@ -198,6 +202,9 @@ func (c *CutReader) Read(p []byte) (int, error) {
 	}
 	copy(p, c.Data[c.off:c.off+n])
 	c.off += n
+	if c.DataWithErr && (failNow || c.off >= c.Cut) {
+		return n, e // the last bytes and the error in the same call
+	}
 	return n, nil
 }
 
